@@ -545,6 +545,21 @@ type statusWrapper struct {
 	// Amount of RCPT commands for the normalized address that got
 	// a status already.
 	reported map[string]int
+	// Total amount of RCPT commands that got a (failure) status.
+	failed int
+}
+
+// allFailed reports whether every RCPT command of the message got a failure
+// status.
+func (sw *statusWrapper) allFailed() bool {
+	sw.lock.Lock()
+	defer sw.lock.Unlock()
+
+	total := 0
+	for _, args := range sw.s.rcptArgs {
+		total += len(args)
+	}
+	return total != 0 && sw.failed == total
 }
 
 func (sw *statusWrapper) SetStatus(rcpt string, err error) {
@@ -570,6 +585,7 @@ func (sw *statusWrapper) SetStatus(rcpt string, err error) {
 		sw.reported = make(map[string]int)
 	}
 	sw.reported[rcpt] = n + 1
+	sw.failed++
 
 	sw.sc.SetStatus(args[n], sw.s.endp.wrapErr(sw.s.msgMeta.ID, !sw.s.opts.UTF8, "DATA", err))
 }
@@ -615,10 +631,16 @@ func (s *Session) LMTPData(r io.Reader, sc smtp.StatusCollector) error {
 		return wrapErr(err)
 	}
 
-	s.delivery.(module.PartialDelivery).BodyNonAtomic(bodyCtx, &statusWrapper{sc: sc, s: s}, header, buf)
+	statuses := &statusWrapper{sc: sc, s: s}
+	s.delivery.(module.PartialDelivery).BodyNonAtomic(bodyCtx, statuses, header, buf)
 
-	// We can't really tell whether it is failed completely or succeeded
-	// so always commit. Should be harmless, anyway.
+	if statuses.allFailed() {
+		// Every recipient was told that the message is not accepted, there is
+		// nothing to commit. The deferred function aborts the delivery.
+		s.log.Msg("rejected for all recipients", "msg_id", s.msgMeta.ID)
+		return nil
+	}
+
 	// Commit finalizes the delivery whether it succeeds or not.
 	finalized = true
 	if err := s.delivery.Commit(bodyCtx); err != nil {
